@@ -375,6 +375,23 @@ def zero_length_array(ctx):
             ctx.mismatch(f'C15|Array-create|zero-length-dtype|wrong-exc:{type(got[1]).__name__}', case, f'{spec}: {got[1]!s:.60}')
         else:
             ctx.ok(('zero-array', spec))
+    # the same dtypes handed over as Dtype objects, with a zero or a negative length: the Dtype or the Array must refuse
+    for name in ('uint', 'int', 'hex', 'bin', 'bits', 'oct', 'bytes', 'uintle', 'intbe', 'float', 'bfloat'):
+        for L in (0, -1, -8, -16, -64):
+            case = {'kind': 'zero-array', 'spec': f'Dtype({name!r}, {L})'}
+            ctx.current_case = case
+            got = call(lambda: Array(Dtype(name, L), [0] if ('int' in name or 'float' in name) else [b''] if name == 'bytes' else ['']))
+            if got[0] != 'ok':
+                got2 = call(lambda: Array(Dtype(name, L)))
+                got = got2 if got2[0] == 'ok' else got
+            ctx.op('Array-set', 'ok' if got[0] == 'ok' else type(got[1]).__name__)
+            lc = 'zero-length' if L == 0 else 'negative-length'
+            if got[0] == 'ok':
+                ctx.mismatch(f'C15|Array-create|{lc}-dtype-object|accepted', case, f'{case["spec"]}: {got[1]!r:.60}')
+            elif not exc_matches(got[1], 'ValueError'):
+                ctx.mismatch(f'C15|Array-create|{lc}-dtype-object|wrong-exc:{type(got[1]).__name__}', case, f'{case["spec"]}: {got[1]!s:.60}')
+            else:
+                ctx.ok(('zero-array', name, L))
 
 
 # ---- Array operations that set several items at once ------------------------------------------------------------
